@@ -153,7 +153,16 @@ def run(prop, spec, gen_opts, n_quick, n_thorough, rule, assumptions, nontrivial
         res.violation({"kind": "property-fails-on-implementation", "openapi": v, "input": small,
                        "implementation_operations": o["ops"], "cli_exit": o["exit"], "cli_output": o["out"][-1500:],
                        "claim": spec["oracle"] + " evaluated on the emitted document is false"})
-    unexplained = [i for i in disagree if i not in propfail]
+    unexplained = []
+    for i in disagree:
+        if i in propfail:
+            continue
+        k, v = meta[i]
+        hit = known_matcher(projects[k], obs[k][v]) if known_matcher else None
+        if hit:
+            res.known(hit[0], hit[1])
+        else:
+            unexplained.append(i)
     if unexplained and not res.violations:
         i = unexplained[0]
         k, v = meta[i]
